@@ -3,7 +3,7 @@ from __future__ import annotations
 
 import ast
 
-from ..absint import Interp, ObjV
+from ..absint import Interp, ObjV, State
 from ..forms import Const, DictV, Form, TupleV, mk_fn
 from ..rules import S, body_nodes, find_raise_guards, names_in, in_loop
 from ..srcmodel import src_of
@@ -187,10 +187,33 @@ def run(ctx):
     it0 = Interp(pkg, assumptions={"seed": "notnone", "len": "notnone"})
     it0.run(fi)
     taps = None
+    is_table = lambda val: isinstance(val, DictV) and len(val.items) >= 3 and all(isinstance(v, TupleV) and len(v.items) == 2 for _, v in val.items)
     for f, stmt, name, val, conds, depth in it0.assign_log:
-        if depth == 0 and isinstance(val, DictV) and len(val.items) >= 3 and all(isinstance(v, TupleV) and len(v.items) == 2 for _, v in val.items):
+        if is_table(val):
             taps, taps_stmt, taps_name = val, stmt, name
             break
+    if taps is None:
+        # a module-level table referenced by PRBS or one of its helpers
+        scopes = [fi]
+        for n_ in body_nodes(fi):
+            if isinstance(n_, ast.Call) and isinstance(n_.func, ast.Name):
+                r_ = pkg.resolve_name(fi.module, fi, n_.func.id)
+                if r_ and r_.startswith("opticomlib.") and r_.count(".") == 2:
+                    cal = pkg.module(r_.split(".")[1]).funcs.get(r_.split(".", 1)[1])
+                    if cal is not None:
+                        scopes.append(cal)
+        for sc in scopes:
+            for n_ in body_nodes(sc):
+                if isinstance(n_, ast.Name) and isinstance(n_.ctx, ast.Load) and n_.id in sc.module.globals:
+                    try:
+                        val = Interp(pkg).eval(n_, State(), sc, 0)
+                    except Exception:
+                        val = None
+                    if is_table(val):
+                        taps, taps_stmt, taps_name = val, sc.module.globals[n_.id], n_.id
+                        break
+            if taps is not None:
+                break
     if taps is None:
         ctx.unknown("C04.1", fi, fi.node, "PRBS tap table", "no dict literal of (n, t) pairs found")
         return
@@ -213,18 +236,19 @@ def run(ctx):
     extra = sorted(set(table) - set(DOCUMENTED))
     if extra:
         ctx.violation("C04.1", fi, taps_stmt, f"extra orders {extra}", "orders outside the documented set are accepted")
-    # order guard uses the table's key set
-    og = None
-    for ifn, test, excs in find_raise_guards(fi):
-        s = src_of(test).replace(" ", "")
-        if s in (f"ordernotin{taps_name}.keys()", f"ordernotin{taps_name}", f"notorderin{taps_name}", f"notorderin{taps_name}.keys()"):
-            og = (ifn, excs)
+    # orders outside the table are rejected before the loop: decided by interpreting PRBS for members and non-members
+    from ..rules import _concrete_run
     loop = next((n for n in fi.node.body if isinstance(n, (ast.While, ast.For))), None)
-    if og is None:
-        ctx.violation("C04.5", fi, fi.node, "PRBS: unsupported order", "no `order not in taps -> ValueError` guard")
-    else:
-        ok = "ValueError" in og[1] and (loop is None or og[0].lineno < loop.lineno)
-        ctx.check("C04.5", ok, fi, og[0], "PRBS: unsupported order", "order not in taps -> ValueError before the loop", f"raises {og[1]} / after the loop")
+    probs, where = [], fi.node
+    for od in sorted(set(table) | {8, 10, 1, 32}):
+        rej, e, out, _i = _concrete_run(pkg, fi, {"order": Form.num(od)}, {"seed": "notnone", "len": "notnone"})
+        if od in table and rej:
+            probs.append(f"supported order {od} is rejected ({e})")
+        elif od not in table and (not rej or e != "ValueError"):
+            probs.append(f"order {od} (not in the table) " + ("is accepted" if not rej else f"raises {e}, documented ValueError"))
+        if out is not None and rej:
+            where = out.node
+    ctx.check("C04.5", not probs, fi, where, "PRBS: unsupported order", "order not in taps -> ValueError before the loop", "; ".join(probs[:3]))
     # ---------------- per order
     for n in sorted(DOCUMENTED):
         if n not in table:
@@ -358,8 +382,8 @@ def run(ctx):
     # ---------------- C04.5 remaining guards
     it = Interp(pkg, param_values={"order": Form.num(7)}, assumptions={"seed": "notnone", "len": "notnone"})
     outs = it.run(fi)
-    exc = {(o.exc, o.conds[-1][0]) for o in outs if o.kind == "raise" and o.conds}
-    ctx.check("C04.5", any(e == "TypeError" and "isinstance(len, int)" in c for e, c in exc), fi, fi.node, "PRBS: len not an int", "raises TypeError", "a non-integer len is not rejected with TypeError")
+    from ..rules import check_type_guard
+    check_type_guard(ctx, "C04.5", fi, "len", "TypeError", ["int"], ["float", "str"], samples={"int": 5}, base={"order": Form.num(7)}, assumptions={"seed": "notnone"})
     from ..rules import Reject, check_range_guard
     check_range_guard(ctx, "C04.5", fi, "len", Reject(lambda x: x <= 0, [0]), "ValueError", "PRBS: len <= 0", accept_sample=[1, 2, 127], base={"order": Form.num(7)},
                       assumptions={"seed": "notnone"}, integer=True)
@@ -368,7 +392,7 @@ def run(ctx):
     for sd, zero in ((0, True), (128, True), (5, False), (127, False)):
         itz = Interp(pkg, param_values={"order": Form.num(7), "seed": Form.num(sd)}, assumptions={"len": "notnone"})
         itz.run(fi)
-        warns = [r for r in itz.calls if r.callee == "warnings.warn" and r.depth == 0]
+        warns = [r for r in itz.calls if r.callee == "warnings.warn"]
         inits = [val for f_, stmt, name, val, conds, depth in itz.assign_log if depth == 0 and isinstance(val, Form) and val.rational() is not None and name not in ("order",)]
         regs = [x for x in (loop_register_init(itz) or [])]
         reg0 = regs[0] if regs else None
